@@ -197,7 +197,7 @@ StaticCase<K> gen_big_case(Ctx &c, size_t eps) {
     sc.chunked = true;
     sc.threads = r.pick<int>({1, 3, 16});
     const uint64_t R = D::R;
-    int fam = int(c.case_idx % 3);
+    int fam = int(c.case_idx % 4);
     // total size log-uniform in [400k, 3.5M]; the irregular head takes 3..50 %, the tail 5..20 %, the run the rest
     size_t total = size_t(400000.0 * std::pow(8.75, r.unit()));
     size_t head = size_t(total * (0.03 + 0.47 * r.unit())), tail = size_t(total * (0.05 + 0.15 * r.unit()));
@@ -219,6 +219,17 @@ StaticCase<K> gen_big_case(Ctx &c, size_t eps) {
     } else if (fam == 1) {
         sc.family = "big_irregular";
         irregular(run / 2);
+    } else if (fam == 3) {
+        // a dense burst of very many short segments inside a sparse universe: hundreds of thousands of segment keys fall
+        // into a handful of Elias-Fano buckets (the mirror image of the giant run)
+        sc.family = "big_dense_burst";
+        uint64_t far = std::min<uint64_t>(R / (head + tail + 8), uint64_t(1) << r.pick<int>({30, 36, 40}));
+        u.clear();
+        cur = r.below(1000);
+        for (size_t i = 0; i < head; ++i) { u.push_back(cur); cur = sat_add(cur, 1 + r.below(far), R); }
+        for (size_t i = 0; i < run; ++i) { u.push_back(cur); cur = sat_add(cur, uint64_t(1) << r.below(9), R); }
+        for (size_t i = 0; i < tail; ++i) { u.push_back(cur); cur = sat_add(cur, 1 + r.below(far), R); }
+        tail = 0;
     } else {
         sc.family = "big_giant_equal_run";
         for (size_t i = 0; i < run; ++i) u.push_back(cur);
@@ -689,7 +700,7 @@ void pgm_case(Ctx &c) {
                 (&::vf::pgm_case<K, E, ER, F, 3>), 5.8)
 #define VF_PGM_BIG(K, E, ER, F)                                                                                        \
     VF_REGISTER(std::string("pgm/") + ::vf::KT<K>::name() + ",e" #E ",er" #ER "," #F "#big",                          \
-                (&::vf::pgm_case<K, E, ER, F, 4>), 0.0041)
+                (&::vf::pgm_case<K, E, ER, F, 4>), 0.0051)
 #define VF_PGM_SWEEP(K, E, ER, F)                                                                                      \
     VF_REGISTER(std::string("pgm/") + ::vf::KT<K>::name() + ",e" #E ",er" #ER "," #F "#sweep",                        \
                 (&::vf::pgm_case<K, E, ER, F, 5>), 0.0003)
